@@ -162,3 +162,57 @@ def memo_verdict(fn, gname, domains=None):
             verdict, text = "unknown", "key / value of %s do not fold over " \
                 "the argument domains" % gname
     return verdict, text
+
+
+_IMMUTABLE_CALLS = ("int", "str", "bytes", "len", "tuple", "frozenset",
+                    "float", "bool", "min", "max", "abs", "sum", "round")
+
+
+def _mutability(t, seen=None):
+    """True: the value is certainly a mutable object (a container / object
+    created here); False: certainly immutable; None: unknown."""
+    seen = seen or set()
+    k = t[0]
+    if k in ("const", "binop", "unop", "cmp", "not", "and", "or"):
+        return False
+    if k == "tuple":
+        rs = [_mutability(x, seen) for x in t[1:]]
+        return True if True in rs else (None if None in rs else False)
+    if k == "new":
+        return True
+    if k in ("call", "callv") and t[1][0] == "global" and \
+            t[1][1] in _IMMUTABLE_CALLS:
+        return False
+    if k in ("call", "callv") and t[1][0] == "global" and \
+            t[1][1] in ("dict", "list", "set", "bytearray", "defaultdict",
+                        "OrderedDict", "deque"):
+        return True
+    if k == "mu":
+        if t[1] in seen:
+            return False
+        seen = seen | {t[1]}
+        rs = [_mutability(t[1].T._bind_term(t[1].T.binds[i]), seen)
+              for i in t[1].ids]
+        return True if True in rs else (None if None in rs else False)
+    if k in ("phi", "ite"):
+        rs = [_mutability(x, seen) for x in (t[1:] if k == "phi" else t[2:])]
+        return True if True in rs else (None if None in rs else False)
+    return None
+
+
+def memo_values_mutable(fn, gname):
+    """Are the values a memo in ``gname`` hands out mutable objects (so that
+    what one caller does to them is seen by the next)?  True / False / None
+    (unknown)."""
+    T = Terms(fn)
+    G = ("global", gname)
+    rs = []
+    for n, st, base, key, val in stores(T):
+        if plain(base) == G:
+            rs.append(_mutability(val))
+    for n, c, recv, args in method_calls(T, ["setdefault"]):
+        if plain(recv) == G and len(args) == 2:
+            rs.append(_mutability(args[1]))
+    if not rs:
+        return None
+    return True if True in rs else (None if None in rs else False)
